@@ -1,15 +1,15 @@
 SPECIFICATION Spec
 CONSTANTS
-  MODE = "compose"
+  MODE = "regions"
   K = 2
-  NF = 2
+  NF = 3
   NG = 1
-  PF = "p2s"
-  TF = "t22a"
+  PF = "p2a"
+  TF = "t22s"
   PG = "p2a"
-  TG = "t22a"
+  TG = "t22s"
   LAYOUTS = {"dfs", "hole", "low"}
   EMIT = TRUE
-INVARIANTS LawCompose IndicesKept ResultWellFormed
+INVARIANTS LawRegions
 ACTION_CONSTRAINT Emit
 CHECK_DEADLOCK FALSE
